@@ -5,6 +5,7 @@
 From Coq Require Import ZArith List Bool Lia Arith.
 From Gods Require Import Common.Cmp Spec.MapSpec Model.Ops Model.Iter Model.Machine.
 From Gods Require Import Model.BTree Model.BTreeIter Proofs.BTreeInd Proofs.BTreeMap Proofs.IterTreeRB.
+From Gods Require Proofs.BTreeInv Proofs.MapSpecProofs.
 Import ListNotations.
 
 Notation entry := BTree.entry.
@@ -755,7 +756,7 @@ Proof.
   intros r Hg it Hv. rewrite cn_bt. destruct it as [| |path key]; [cbn [bt_pos]; lia|cbn [bt_pos]; lia|].
   cbn [bt_valid] in Hv. destruct r as [rt|]; [|contradiction].
   destruct Hv as (n & e & Ha). destruct (at_entry_facts rt path key n e Hg Ha) as (Hp & Hlt & _).
-  rewrite Hp. cbn [bt_inorder]. Set Printing All. Show. lia.
+  rewrite Hp. cbn [bt_inorder]. unfold BTree.entry in *. lia.
 Qed.
 
 Lemma bt_between_in : forall r, bt_good r -> forall it, bt_valid r it ->
@@ -766,7 +767,7 @@ Proof.
   - cbn [bt_pos]. rewrite Z.ltb_irrefl. symmetry. apply andb_false_r.
   - cbn [bt_valid] in Hv. destruct r as [rt|]; [|contradiction].
     destruct Hv as (n & e & Ha). destruct (at_entry_facts rt path key n e Hg Ha) as (Hp & Hlt & _).
-    rewrite Hp. cbn [bt_inorder]. symmetry. apply andb_true_iff. split.
+    rewrite Hp. cbn [bt_inorder]. unfold BTree.entry in *. symmetry. apply andb_true_iff. split.
     + apply Z.leb_le. lia.
     + apply Z.ltb_lt. lia.
 Qed.
@@ -787,11 +788,12 @@ Proof.
     + cbn [bt_valid] in Hv. destruct Hv as (n & e & Ha).
       destruct (at_entry_facts rt path key n e Hg Ha) as (Hp & Hlt & _).
       pose proof (bt_inext_spec cmp Hswo rt path key n e Hg Ha) as Hs.
-      rewrite Hp. cbn [bt_inorder] in *.
-      destruct (Z.of_nat (lo rt path + erank n e) <? Z.of_nat (length (inorder rt))) eqn:E;
-        [|apply Z.ltb_ge in E; lia].
+      rewrite Hp. cbn [bt_inorder] in *. unfold BTree.entry in *.
+      replace (Z.of_nat (lo rt path + erank n e) <? Z.of_nat (@length (Z * Z) (inorder rt))) with true
+        by (symmetry; apply Z.ltb_lt; lia).
       destruct (inext cmp (Some rt) (IBetween path key)) as [| |q k]; [contradiction| |].
-      * split; [exact I|]. cbn [bt_pos bt_inorder]. rewrite <- count_inorder_gen. lia.
+      * split; [exact I|]. cbn [bt_pos bt_inorder]. pose proof (count_inorder_gen rt) as Hci.
+        unfold BTree.entry in *. lia.
       * destruct Hs as (n' & e' & Ha' & Hr'). split; [exists n', e'; exact Ha'|].
         destruct (at_entry_facts rt q k n' e' Hg Ha') as (Hp' & _ & _). rewrite Hp'. lia.
   - destruct it as [| |path key]; [| |contradiction]; cbn; split; (exact I || reflexivity).
@@ -889,3 +891,119 @@ Proof.
   - cbn [bt_pos]. lia.
 Qed.
 End BTSim.
+
+(* ====================================================================================== *)
+(* [bt_good] from the reachable-state invariant, and the machine-level statements           *)
+(* ====================================================================================== *)
+(* The B-tree invariant of Proofs/BTreeInv.v ([btree_inv m r]: all leaves at one depth, entry-count
+   bounds, root non-empty) and sortedness ([sorted_root cmp r] = the in-order sequence is strictly
+   ascending, hence duplicate-free, for cmp) give the first three parts of [good].  The fourth part,
+   [maxheight r <= S F] (= 65), is about the constant descent fuel F = 64 of Model/BTreeIter.v
+   ([leftmost F] / [rightmost F] / [climb_* .. F]): the model's iterator stops descending after 64
+   levels where the Go loop `for ; len(node.Children) > 0; ` runs on.  A tree of height h holds at
+   least 2^h - 1 entries ([bal_cnt_count] below), so the bound holds for every tree with fewer than
+   2^65 entries ([btree_inv_maxheight]); it cannot be discharged unconditionally for "all op
+   lists", since the op list alphabet does not bound the length of a history. *)
+Section HeightBound.
+Local Open Scope Z_scope.
+Variable m : nat.
+Hypothesis Hm : (3 <= m)%nat.
+
+Lemma csum_lower : forall cs X,
+  Forall (fun c => X <= Z.of_nat (count c) + 1) cs ->
+  Z.of_nat (length cs) * X <= Z.of_nat (csum cs) + Z.of_nat (length cs).
+Proof.
+  induction cs as [|c cs IH]; intros X Hf; [cbn; lia|].
+  inversion Hf as [|c' cs' Hc Hcs]; subst. specialize (IH X Hcs).
+  change (csum (c :: cs)) with (count c + csum cs)%nat. cbn [length].
+  rewrite Nat2Z.inj_succ, Nat2Z.inj_add. lia.
+Qed.
+
+Lemma bal_cnt_count : forall h n lo, (1 <= lo)%nat -> bal h n -> BTreeInv.cnt m lo n ->
+  2 ^ Z.of_nat h <= Z.of_nat (count n) + 1.
+Proof.
+  induction h as [|h IH]; intros [es cs] lo Hlo Hb Hc; [contradiction|].
+  apply BTreeInv.cnt_inv in Hc. destruct Hc as [Hlen Hf].
+  destruct h as [|h'].
+  - apply bal_1 in Hb. subst cs. cbn [count map list_sum]. change (2 ^ Z.of_nat 1) with 2. lia.
+  - apply bal_SS in Hb. destruct Hb as [Hl Hbs].
+    assert (Hall : Forall (fun c => 2 ^ Z.of_nat (S h') <= Z.of_nat (count c) + 1) cs).
+    { rewrite Forall_forall in *. intros c Hin.
+      apply (IH c (minEntries m)); [apply BTreeInv.minE_pos; exact Hm|apply Hbs; exact Hin|apply Hf; exact Hin]. }
+    pose proof (csum_lower cs _ Hall) as Hsum.
+    cbn [count]. fold (csum cs).
+    rewrite (Nat2Z.inj_succ (S h')), Z.pow_succ_r by lia.
+    assert (Hpos : 0 < 2 ^ Z.of_nat (S h')) by (apply Z.pow_pos_nonneg; lia).
+    rewrite Hl in Hsum. rewrite Nat2Z.inj_succ in Hsum. rewrite Nat2Z.inj_add. nia.
+Qed.
+
+Theorem btree_inv_maxheight : forall n, BTreeInv.btree_inv m (Some n) ->
+  Z.of_nat (count n) < 2 ^ 65 -> (maxheight n <= 65)%nat.
+Proof.
+  intros n (h & Hb & Hc) Hlt. rewrite (bal_maxheight _ _ Hb).
+  pose proof (bal_cnt_count h n 1%nat (le_n 1) Hb Hc) as Hle.
+  destruct (le_lt_dec h 65) as [Hok|Hbig]; [exact Hok|exfalso].
+  assert (H66 : 2 ^ 66 <= 2 ^ Z.of_nat h) by (apply Z.pow_le_mono_r; lia).
+  assert (H65 : 2 ^ 65 < 2 ^ 66) by (apply Z.pow_lt_mono_r; lia).
+  lia.
+Qed.
+
+Lemma cnt_ne : forall n lo, (1 <= lo)%nat -> BTreeInv.cnt m lo n -> ne_entries n.
+Proof.
+  intros n. induction n as [es cs IH] using BTreeInd.node_ind2. intros lo Hlo Hc.
+  apply BTreeInv.cnt_inv in Hc. destruct Hc as [Hlen Hf]. constructor.
+  - intros E. subst es. cbn [length] in Hlen. lia.
+  - rewrite Forall_forall in *. intros c Hc.
+    apply (IH c Hc (minEntries m)); [apply BTreeInv.minE_pos; exact Hm | apply Hf; exact Hc].
+Qed.
+End HeightBound.
+
+(* the iterator's descent fuel suffices for the tree *)
+Definition bt_depth_ok (r : option node) : Prop :=
+  match r with Some n => (maxheight n <= 65)%nat | None => True end.
+
+Theorem bt_good_of_inv : forall m cmp r, (3 <= m)%nat ->
+  BTreeInv.btree_inv m r -> BTreeInv.sorted_root cmp r -> bt_depth_ok r -> bt_good cmp r.
+Proof.
+  intros m cmp [n|] Hm Hinv Hs Hd; [|exact I]. cbn [bt_good].
+  split; [eapply BTreeInv.btree_inv_wf; exact Hinv|]. split.
+  - destruct Hinv as (h & _ & Hc). exact (cnt_ne m Hm n 1%nat (le_n 1) Hc).
+  - split; [exact Hs|]. exact Hd.
+Qed.
+
+Theorem bt_depth_ok_of_size : forall m r, (3 <= m)%nat -> BTreeInv.btree_inv m r ->
+  (Z.of_nat (length (bt_inorder r)) < 2 ^ 65)%Z -> bt_depth_ok r.
+Proof.
+  intros m [n|] Hm Hinv Hlt; [|exact I]. cbn [bt_depth_ok bt_inorder] in *.
+  apply (btree_inv_maxheight m Hm n Hinv). rewrite count_inorder_gen. exact Hlt.
+Qed.
+
+(* ---------- machine level ---------- *)
+(* the hypotheses are invariants of the reachable states (Proofs/IterTreeMachine.v) *)
+Theorem run_iter_bt : forall c r n cs, bt_good (kc c) r -> n = Z.of_nat (length (bt_inorder r)) ->
+  run_iter c (StBT r n) cs = cursor_script (bt_inorder r) true cs.
+Proof.
+  intros c r n cs Hg Hn. subst n. unfold run_iter, script_fuel, size_of. rewrite Nat2Z.id.
+  apply (bt_iter_script (kc c) (MapSpecProofs.cmp_of_SWO _)); [exact Hg|lia].
+Qed.
+
+Theorem each_of_bt : forall c r n, bt_good (kc c) r -> n = Z.of_nat (length (bt_inorder r)) ->
+  each_of c (StBT r n) = Some (bt_inorder r).
+Proof.
+  intros c r n Hg Hn. subst n. unfold each_of, script_fuel, size_of. rewrite Nat2Z.id.
+  apply (bt_walk_forward (kc c) (MapSpecProofs.cmp_of_SWO _)); [exact Hg|lia].
+Qed.
+
+Theorem each_back_bt : forall c r n, bt_good (kc c) r -> n = Z.of_nat (length (bt_inorder r)) ->
+  each_back c (StBT r n) = Some (rev (bt_inorder r)).
+Proof.
+  intros c r n Hg Hn. subst n. unfold each_back, script_fuel, size_of. rewrite Nat2Z.id.
+  apply (bt_walk_backward (kc c) (MapSpecProofs.cmp_of_SWO _)); [exact Hg|lia].
+Qed.
+
+Print Assumptions bt_iter_script.
+Print Assumptions run_iter_bt.
+Print Assumptions each_of_bt.
+Print Assumptions each_back_bt.
+Print Assumptions bt_good_of_inv.
+Print Assumptions bt_depth_ok_of_size.
